@@ -43,6 +43,7 @@ META = {
 }
 
 WORKERS = 4
+TLC_TIMEOUT = 3000        # seconds per TLC run (the sandbox is shared with other checks)
 SPECDIR = "Advertising"
 OWN = [0x47, 0x11, 0x08, 0x15, 0x0f, 0xc0]           # random static address of the harness radio's seed
 OWN_PUB = [0x21, 0x43, 0x65, 0x87, 0xa9, 0x4b]       # `reset pub`
@@ -78,7 +79,8 @@ def build_cfgs(c, ids):
     ids = list(ids)
     for i in range(0, len(ids), WORKERS):
         part = ids[i:i + WORKERS]
-        outs = vlib.build_many(c, [dict(name="adv_%d" % k, sources=sources(), defines=["ADV_CFG=%d" % k]) for k in part])
+        outs = vlib.build_many(c, [dict(name="adv_%d" % k, sources=sources(), defines=["ADV_CFG=%d" % k],
+                                        opt="-O0" if c.quick else "-O1") for k in part])
         exes.update(dict(zip(part, outs)))
     return exes
 
@@ -114,32 +116,35 @@ def script_of(behaviour, tail=4):
     return ["reset"] + [op_line(op) for op in behaviour] + ["disc?", "drain %d" % tail]
 
 
-def run_and_validate(c, exe, tag, scripts, descr=None):
-    """scripts: list of executions (each a list of script lines). Runs them on `exe`, validates the traces with
-    TLC, returns list of (execution events, index of mismatching event, descriptor) and counts events by action."""
+def execute(c, exe, tag, scripts, descr=None):
+    """scripts: list of executions (each a list of script lines). Runs them on `exe` -> list of trace jobs."""
     if not scripts:
         return []
     nparts = max(1, min(WORKERS, sum(len(s) for s in scripts) // 6000))
-    idx = list(range(len(scripts)))
-    parts = vlib.chunks(idx, nparts)
-    traces = []
-    for i, part in enumerate(parts):
+    jobs = []
+    for i, part in enumerate(vlib.chunks(list(range(len(scripts))), nparts)):
         sp = os.path.join(c.build_dir, "s_%s_%d.txt" % (tag, i))
         tp = os.path.join(c.build_dir, "t_%s_%d.ndjson" % (tag, i))
         vlib.write_lines(sp, [l for k in part for l in scripts[k]])
         rc, out = vlib.run_harness(exe, [sp, tp])
         if rc != 0:
             raise vlib.ToolFailure("harness failed rc=%d (%s): %s" % (rc, tag, out[-2000:]))
-        traces.append((tp, part))
+        jobs.append(dict(trace=tp, tag=tag, scripts=[scripts[k] for k in part], descr=[descr[k] for k in part] if descr else None))
+    return jobs
+
+
+def validate(c, jobs):
+    """validates the traces with TLC (WORKERS at a time) -> list of (tag, execution events, index of the event no
+    specification action explains, descriptor); counts events by action."""
     tcfg = os.path.join(vlib.SPEC, SPECDIR, "Trace.cfg")
     with ThreadPoolExecutor(WORKERS) as ex:
-        verdicts = list(ex.map(lambda t: vlib.validate_trace(SPECDIR, "AdvertisingTrace.tla", tcfg, t[0]), traces))
+        verdicts = list(ex.map(lambda j: vlib.validate_trace(SPECDIR, "AdvertisingTrace.tla", tcfg, j["trace"], timeout=TLC_TIMEOUT), jobs))
     bad = []
     counts = c.extra.setdefault("events_by_action", {})
-    for (tp, part), v in zip(traces, verdicts):
-        execs = vlib.split_executions(tp)
-        if len(execs) != len(part):
-            raise vlib.ToolFailure("trace %s has %d executions, expected %d" % (tp, len(execs), len(part)))
+    for job, v in zip(jobs, verdicts):
+        execs = vlib.split_executions(job["trace"])
+        if len(execs) != len(job["scripts"]):
+            raise vlib.ToolFailure("trace %s has %d executions, expected %d" % (job["trace"], len(execs), len(job["scripts"])))
         c.add_traces(len(execs), v.events)
         for first, evs in execs:
             for e in evs:
@@ -149,10 +154,14 @@ def run_and_validate(c, exe, tag, scripts, descr=None):
         for ln in v.mismatch_lines:
             k = [j for j, e in enumerate(execs) if e[0] <= ln][-1]
             first, evs = execs[k]
-            bad.append((evs, ln - first, part[k], descr[part[k]] if descr else None))
-        if len(c.samples) < 4:
-            c.sample({"configuration": tag, "script": scripts[part[0]][:12], "trace_head": execs[0][1][:6]})
+            bad.append((job["tag"], evs, ln - first, job["descr"][k] if job["descr"] else None))
+        if len(c.samples) < 5:
+            c.sample({"configuration": job["tag"], "script": job["scripts"][0][:12], "trace_head": execs[0][1][:6]})
     return bad
+
+
+def run_and_validate(c, exe, tag, scripts, descr=None):
+    return validate(c, execute(c, exe, tag, scripts, descr))
 
 
 # ------------------------------------------------------------------------------------------
@@ -218,27 +227,38 @@ def d_class(d, evs, k):
     return "%s:%s" % (d["setup"], cls)
 
 
-def report(c, bad, what_prefix):
-    for evs, k, sidx, d in bad:
+def report(c, bad):
+    for tag, evs, k, d in bad:
         sig = signature(evs, k, d)
         case = {"cfg": evs[0].get("cfg"), "events": evs[:k + 1]}
-        c.finding(sig, "%s: event %s is not a step of Advertising.tla (execution prefix of %d events)"
-                  % (what_prefix, json.dumps(evs[k])[:300], k + 1), case)
+        c.finding(sig, "link layer configuration %s: event %s is not a step of Advertising.tla (execution prefix of %d events)"
+                  % (tag, json.dumps(evs[k])[:300], k + 1), case)
 
 
 # ------------------------------------------------------------------------------------------
 # C24
 # ------------------------------------------------------------------------------------------
-def gen(c, cfgid, fam, d, maxchg, simulate=None):
-    k = CFG[cfgid]
-    text = ("CONSTANTS Profile = \"c24\" Fam = \"%s\" D = %d MaxChg = %d GAuto = %s GVarMap = %s GVarIv = %s GIv0 = %d\n"
-            "SPECIFICATION GSpec\nINVARIANTS Emit\nCHECK_DEADLOCK FALSE\n"
-            % (fam, d, maxchg, tbool(k["auto"]), tbool(k["varmap"]), tbool(k["variv"]), k["iv0"] * 1000))
-    cfg = vlib.write_cfg(c, "gen_%d_%s_%s.cfg" % (cfgid, fam, "sim" if simulate else "bfs"), text)
+FAM = {"map": 1, "iv": 2, "ctl": 3, "all": 4}
+
+
+def plan_no(cfgid, fam, d, maxchg):
+    return cfgid * 1000000 + FAM[fam] * 10000 + d * 100 + maxchg
+
+
+def gen(c, plans, name, simulate=None, depth=None):
+    """one TLC run of AdvertisingGen.tla for a set of plans -> dict plan number -> behaviours (plan element stripped)"""
+    text = ("CONSTANTS Profile = \"c24\" Plans = {%s}\nSPECIFICATION GSpec\nINVARIANTS Emit\nCHECK_DEADLOCK FALSE\n"
+            % ", ".join(str(p) for p in plans))
+    cfg = vlib.write_cfg(c, "gen_%s.cfg" % name, text)
     if simulate:
-        return vlib.generate(c, SPECDIR, "AdvertisingGen.tla", cfg, simulate=max(1, simulate // WORKERS), depth=3 * d + 10,
-                             seed=c.seed, workers=WORKERS)[:simulate]
-    return vlib.generate(c, SPECDIR, "AdvertisingGen.tla", cfg, workers=WORKERS)
+        behs = vlib.generate(c, SPECDIR, "AdvertisingGen.tla", cfg, simulate=simulate, depth=depth, seed=c.seed, workers=1,
+                             timeout=TLC_TIMEOUT)
+    else:
+        behs = vlib.generate(c, SPECDIR, "AdvertisingGen.tla", cfg, workers=1, timeout=TLC_TIMEOUT)
+    res = {}
+    for b in behs:
+        res.setdefault(b[0][1], []).append(b[1:])
+    return res
 
 
 def run_c24(c):
@@ -250,39 +270,47 @@ def run_c24(c):
         "T2: start_advertising(n) counts PDUs (implementation comment + repository tests); the class documentation says events",
         "T3/T4: interval / advertising type changes may take effect at the next event / PDU or later start",
         "the channel map is never emptied (documented precondition)"]
-    vlib.model_check(c, SPECDIR, "AdvertisingMC.tla", "MC.cfg", workers=WORKERS)
-    ids = [1, 2, 3, 4]
-    exes = build_cfgs(c, ids)
     if c.replay:
-        return replay(c, exes)
+        return replay(c, {})
     q = c.quick
-    plan = [   # (configuration, family, D, MaxChg, number of random behaviours (0: exhaustive BFS))
-        (2, "map", 5 if q else 7, 2 if q else 3, 0),
-        (2, "iv", 4 if q else 6, 2 if q else 3, 0),
-        (1, "ctl", 4 if q else 5, 0, 0),
-        (4, "ctl", 3 if q else 4, 0, 0),
-        (3, "ctl", 3 if q else 5, 0, 0),
-        (1, "all", 30 if q else 60, 6 if q else 12, 60 if q else 600),
-        (2, "all", 30 if q else 60, 6 if q else 12, 60 if q else 600),
-    ]
-    if not q:
-        plan += [(1, "map", 6, 3, 0), (3, "all", 40, 0, 200), (4, "all", 40, 0, 200)]
+    ids = [1, 2, 3] if q else [1, 2, 3, 4]
+    bfs = [   # (configuration, family, D, MaxChg): every input sequence of the family
+        (2, "map", 5 if q else 7, 2 if q else 3),
+        (2, "iv", 4 if q else 6, 2 if q else 3),
+        (1, "ctl", 3 if q else 4, 0),
+        (3, "ctl", 3 if q else 5, 0),
+    ] + ([] if q else [(4, "ctl", 4, 0), (1, "map", 6, 3)])
+    sim = [(1, "all", 30 if q else 60, 6 if q else 12), (2, "all", 30 if q else 60, 6 if q else 12)] \
+        + ([] if q else [(3, "all", 40, 0), (4, "all", 40, 0)])
+    nsim = 100 if q else 800
+    with ThreadPoolExecutor(4) as ex:          # model checking, compiling and generating side by side
+        fm = ex.submit(vlib.model_check, c, SPECDIR, "AdvertisingMC.tla", "MC.cfg" if q else "MCfull.cfg", workers=2, timeout=TLC_TIMEOUT)
+        fb = ex.submit(build_cfgs, c, ids)
+        fg = ex.submit(gen, c, [plan_no(*p) for p in bfs], "bfs")
+        fs = ex.submit(gen, c, [plan_no(*p) for p in sim], "sim", simulate=nsim, depth=3 * max(p[2] for p in sim) + 10)
+        fm.result()
+        exes = fb.result()
+        by_plan = fg.result()
+        for k, v in fs.result().items():
+            by_plan.setdefault(k, []).extend(v)
     per_cfg = {}
     fam_counts = {}
-    for cfgid, fam, d, mc, nsim in plan:
-        behs = gen(c, cfgid, fam, d, mc, simulate=nsim or None)
-        fam_counts["cfg%d:%s:D=%d:%s" % (cfgid, fam, d, "random" if nsim else "all")] = len(behs)
-        per_cfg.setdefault(cfgid, []).extend(behs)
-        c.sample({"cfg": cfgid, "family": fam, "behaviour": behs[0]})
+    for p in bfs + sim:
+        behs = by_plan.get(plan_no(*p), [])
+        if not behs:
+            raise vlib.ToolFailure("no behaviour generated for plan %s" % (p,))
+        fam_counts["cfg%d:%s:D=%d:%s" % (p[0], p[1], p[2], "random" if p in sim else "all")] = len(behs)
+        per_cfg.setdefault(p[0], []).extend(behs)
+        c.sample({"cfg": p[0], "family": p[1], "behaviour": behs[0]})
     c.extra["behaviours"] = fam_counts
     c.extra["rule"] = ("behaviours are produced by TLC from AdvertisingGen.tla (BFS = all input sequences of the family "
                        "up to D, random = -simulate); the check appends 'disc?' and 4 conditional adv_timeout callbacks so that "
                        "the effect of the last call is observed")
     c.exhaustive = True
+    jobs = []
     for cfgid, behs in per_cfg.items():
-        scripts = [script_of(b) for b in behs]
-        bad = run_and_validate(c, exes[cfgid], "c%d" % cfgid, scripts)
-        report(c, bad, "link layer configuration %d" % cfgid)
+        jobs += execute(c, exes[cfgid], "c%d" % cfgid, [script_of(b) for b in behs])
+    report(c, validate(c, jobs))
     need = ["Run", "Start", "StartN", "Stop", "AddCh", "RemCh", "SetIv", "Timeout", "AdvRx", "Disc", "AdvTx", "AdvRx:connected"]
     missing = [a for a in need if not c.extra["events_by_action"].get(a)]
     if missing:
@@ -356,14 +384,19 @@ def run_c25(c):
         "connect requests carry valid connection parameters (C22 decides invalid ones)",
         "length field values < 64 (the RFU bits of the 4.x header length are not exercised)",
         "directed advertising address is set before advertising starts"]
-    vlib.model_check(c, SPECDIR, "AdvertisingMC.tla", "MC25.cfg" if c.quick else "MC25full.cfg", workers=WORKERS)
-    ids = [5, 6, 7, 8] + ([] if c.quick else [9])
-    exes = build_cfgs(c, ids)
     if c.replay:
-        return replay(c, exes)
+        return replay(c, {})
+    ids = [5, 6] if c.quick else [5, 6, 7, 8, 9]
+    with ThreadPoolExecutor(2) as ex:
+        fm = ex.submit(vlib.model_check, c, SPECDIR, "AdvertisingMC.tla", "MC25.cfg" if c.quick else "MC25full.cfg", workers=WORKERS,
+                       timeout=TLC_TIMEOUT)
+        fb = ex.submit(build_cfgs, c, ids)
+        fm.result()
+        exes = fb.result()
     rnd = random.Random(c.seed)
     chunk = 60
     total = 0
+    jobs = []
     for cfgid in ids:
         scripts, descr = [], []
         for name, ops, pub in c25_setups(cfgid, c.quick):
@@ -375,6 +408,8 @@ def run_c25(c):
                 lines = list(ops)
                 for p, size, cls in part:
                     lines += ["sync37", "rx %d %s" % (size, " ".join(str(b) for b in p)), "disc?"]
+                    if CFG[cfgid].get("manual"):
+                        lines.append("start")         # manual start: a connection switches advertising off
                 lines.append("drain 2")
                 scripts.append(lines)
                 descr.append({"setup": name, "pdus": [x[2] for x in part]})
@@ -401,8 +436,8 @@ def run_c25(c):
                 lines.append("drain 2")
                 scripts.append(lines)
                 descr.append({"setup": "cfg%d:scenario" % cfgid, "pdus": cl})
-        bad = run_and_validate(c, exes[cfgid], "c%d" % cfgid, scripts, descr)
-        report(c, bad, "link layer configuration %d" % cfgid)
+        jobs += execute(c, exes[cfgid], "c%d" % cfgid, scripts, descr)
+    report(c, validate(c, jobs))
     c.extra["pdus_replayed"] = total
     c.extra["rule"] = ("plain grid enumerated by the python check (checks/adv.py:pdu_grid x c25_setups), every cell handed to "
                        "the real adv_received; before each PDU adv_timeout is delivered until the advertisement on air is on "
@@ -466,9 +501,9 @@ def replay(c, exes):
     if cfgid not in exes:
         exes.update(build_cfgs(c, [cfgid]))
     lines = events_to_script(case["events"])
-    bad = run_and_validate(c, exes[cfgid], "replay", [lines])
+    bad = run_and_validate(c, exes[cfgid], "replay-c%d" % cfgid, [lines])
     c.sample(lines)
-    report(c, bad, "replayed case (configuration %d)" % cfgid)
+    report(c, bad)
     if not bad:
         c.note("replayed case is accepted by the specification")
 
